@@ -64,7 +64,7 @@ OnCall(mm, e, meta) ==
 
 OnSend(mm, e, meta) ==
     LET cands == {r \in Active(mm) : ReqMatch(meta.cmds[r], e.f)}
-    IN IF cands = {} THEN R([mm EXCEPT !.lastReq = 0], {"C04.SameBytes"})
+    IN IF cands = {} THEN R([mm EXCEPT !.lastReq = 0], {"C04.SameBytes", "C03.OnWire"})
        ELSE
        LET r == CHOOSE x \in cands : \A y \in cands : x <= y
            q == mm.rq[r]
